@@ -270,38 +270,64 @@ where
        | some w => cfgBeq v w
        | none => false) && sub r b
 
-/-- `update(old, new, priority, defaults)`; `none` = raised (`k in defaults` on a non-mapping truthy `defaults`). -/
-def update (p : Priority) : Dict → Dict → Option Cfg → Option Dict
-  | old, [], _ => some old
-  | old, (k0, v) :: rest, defaults =>
-    let k := canonicalName k0 old
-    match v with
-    | .node sub =>
-      let cur : Dict := match dget old k with
-        | some (.node s) => s
-        | _ => []
-      let subDefaults : Option (Option Cfg) :=
-        if truthy defaults then
-          (match defaults with
-           | some (.node dd) => some (dget dd k)
-           | _ => none)            -- `defaults.get` on a scalar: AttributeError
-        else some none
-      match subDefaults with
+/-- `defaults.get(k) if defaults else None`; outer `none` = AttributeError (`.get` on a truthy scalar) -/
+def subDefaults (defaults : Option Cfg) (k : String) : Option (Option Cfg) :=
+  if truthy defaults then
+    (match defaults with
+     | some (.node dd) => some (dget dd k)
+     | _ => none)
+  else some none
+
+/-- entries of `old[k]` when it is a dict, else of the `{}` that replaces it
+    (`if k not in old or old[k] is None or not isinstance(old[k], dict): old[k] = {}`) -/
+def curOf (old : Dict) (k : String) : Dict :=
+  match dget old k with
+  | some (.node s) => s
+  | _ => []
+
+/-- does a non-mapping item `(k, v)` of `new` overwrite `old[k]`?
+    `priority == "new" or k not in old or (priority == "new-defaults" and defaults and k in defaults and
+    defaults[k] == old[k])`; `none` = raised (`k in defaults` on a truthy scalar).
+    Generic in the value type (`toCfg` reads a value for the `==`), shared with `Model/ConfigAlias.lean`. -/
+def leafWins {α : Type} (toCfg : α → Cfg) (p : Priority) (old : List (String × α)) (k : String)
+    (defaults : Option Cfg) : Option Bool :=
+  if p == .new || !(dhas old k) then some true
+  else if p == .newDefaults && truthy defaults then
+    match defaults with
+    | some (.node dd) =>
+      (match dget dd k, dget old k with
+       | some dv, some ov => some (cfgBeq dv (toCfg ov))
+       | _, _ => some false)
+    | _ => none
+  else some false
+
+mutual
+/-- the recursive call `update(old[k], v, …)` for a mapping-valued item `v` (`cur` = entries of `old[k]`) -/
+def updateNode (p : Priority) : Cfg → Dict → Option Cfg → Option Dict
+  | .node sub, cur, sd => updateGo p sub cur sd
+  | .leaf _, cur, _ => some cur
+/-- the loop `for k, v in new.items()` of `update`, argument order `new old` (structural recursion on `new`) -/
+def updateGo (p : Priority) : Dict → Dict → Option Cfg → Option Dict
+  | [], old, _ => some old
+  | kv :: rest, old, defaults =>
+    let k := canonicalName kv.1 old
+    match kv.2 with
+    | .node _ =>
+      match subDefaults defaults k with
       | none => none
       | some sd =>
-        match update p cur sub sd with
-        | some cur' => update p (dset old k (.node cur')) rest defaults
+        match updateNode p kv.2 (curOf old k) sd with
+        | some cur' => updateGo p rest (dset old k (.node cur')) defaults
         | none => none
     | .leaf _ =>
-      if p == .new || !(dhas old k) then update p (dset old k v) rest defaults
-      else if p == .newDefaults && truthy defaults then
-        match defaults with
-        | some (.node dd) =>
-          (match dget dd k, dget old k with
-           | some dv, some ov => if cfgBeq dv ov then update p (dset old k v) rest defaults else update p old rest defaults
-           | _, _ => update p old rest defaults)
-        | _ => none
-      else update p old rest defaults
+      match leafWins id p old k defaults with
+      | none => none
+      | some true => updateGo p rest (dset old k kv.2) defaults
+      | some false => updateGo p rest old defaults
+end
+
+/-- `update(old, new, priority, defaults)`; `none` = raised (`defaults.get` / `k in defaults` on a truthy scalar). -/
+def update (p : Priority) (old new : Dict) (defaults : Option Cfg) : Option Dict := updateGo p new old defaults
 
 /-- `merge(*dicts)` -/
 def merge : List Dict → Option Dict
